@@ -176,6 +176,46 @@ func execHashio(vec J, out *Writer) {
 		rec["new_ok"] = true
 		rec["steps"] = steps
 		out.Put(rec)
+	case "hasher_life":
+		// one Hasher, a sequence of operations: w = Write n bytes, s = Sum through the pointer, e = an entry built by
+		// FileHashFromHasher (which takes the hasher BY VALUE) - after any of them the hasher is used again
+		alg := vec["alg"].(string)
+		h, err := hashio.NewHasher(alg)
+		if err != nil {
+			out.Put(J{"ev": "hasher_life", "in": vec, "new_ok": false, "steps": []interface{}{}})
+			return
+		}
+		total := 0
+		for _, oj := range L(vec["ops"]) {
+			total += I(M(oj)["n"])
+		}
+		stream := streamBytes(total, 17)
+		pos := 0
+		steps := []interface{}{}
+		for _, oj := range L(vec["ops"]) {
+			o := M(oj)
+			st := J{"n": 0, "err": false, "sum_is": "", "size": 0, "entry_alg": ""}
+			switch o["op"].(string) {
+			case "w":
+				n, werr := h.Write(stream[pos : pos+I(o["n"])])
+				pos += I(o["n"])
+				st["n"], st["err"] = n, werr != nil
+			case "s":
+				st["sum_is"] = sumIs(h.Sum(nil), stream[:pos])
+				st["size"] = int(h.Size())
+			case "e":
+				fh := control.FileHashFromHasher("file_1.0.tar.gz", *h)
+				raw, derr := hex.DecodeString(fh.Hash)
+				if derr != nil {
+					raw = nil
+				}
+				st["sum_is"] = sumIs(raw, stream[:pos])
+				st["size"] = int(fh.Size)
+				st["entry_alg"] = fh.Algorithm
+			}
+			steps = append(steps, st)
+		}
+		out.Put(J{"ev": "hasher_life", "in": vec, "new_ok": true, "steps": steps})
 	case "verifier_seq":
 		// one child process, a sequence of verifications: a rejected stream must not influence the next one
 		js, _ := json.Marshal(vec)
